@@ -198,7 +198,8 @@ def Item.effective : Item → List TxV
   | .proxied _ inner _ => inner.toList
   | .forwarded t _ => [t]
 
-/-- `executor.checkTx` returns nil at its first line for such an item (para chain + IsForward2MainChainTx). -/
+/-- for such an item (para chain + IsForward2MainChainTx) `executor.checkTx` skips expiry, fee and executor-name checks;
+after fix d931b79 in /repo it still applies the blacklist rule. -/
 def Item.isForwarded : Item → Bool
   | .forwarded _ _ => true
   | _ => false
@@ -211,7 +212,11 @@ def execItem (active : Bool) (set : List Raw) : Item → List Ty
     match inner with
     | none => [base]
     | some t => [if (check active set t).isSome then .err else base]
-  | .forwarded _ base => [base]     -- no expiry, fee, executor-name or blacklist check at all
+  | .forwarded t base => [if (check active set t).isSome then .err else base]
+
+/-- the executor as it was before fix d931b79: a forwarded transaction skipped the blacklist rule as well (kept for the
+regression witness). -/
+def execForwardedPreFix (_active : Bool) (_set : List Raw) (_t : TxV) (base : Ty) : List Ty := [base]
 
 /-- `AddTxsToBlock`: is the (single or group) entry put into the block by the producer. -/
 def producerTakes (active : Bool) (set : List Raw) (ts : List TxV) : Bool :=
